@@ -42,6 +42,7 @@ func runC08(c *Ctx) {
 		return
 	}
 	c08NodeFromObject(c, pkM)
+	c08BytesOwned(c)
 	c08ContentFullyRead(c)
 	c08SortOwnSlice(c)
 	c08CanonicalString(c)
@@ -545,7 +546,11 @@ func c08NodeFromObject(c *Ctx, pkM *packages.Package) {
 	c.Rule(rule, "every walked object becomes one file node named by its bucket path with the digest of its own content", 4)
 	p := c.P
 	n := 0
-	for _, sf := range p.SSAFuncsOf([]*packages.Package{pkM}) {
+	scope := []*packages.Package{pkM}
+	if pkC := p.Pkg("private/bufpkg/bufcas"); pkC != nil {
+		scope = append(scope, pkC) // NewFileSetForBucket: a file set (and so a manifest) for any bucket; same naming rule, no module-file filter
+	}
+	for _, sf := range p.SSAFuncsOf(scope) {
 		for _, f := range allSSAFuncs(sf) {
 			for _, call := range callsIn(f) {
 				if !calleeIs(staticCalleeObj(call.Call), "private/pkg/storage", "WalkReadObjects") || len(call.Call.Args) < 4 {
@@ -571,7 +576,7 @@ func c08NodeFromObject(c *Ctx, pkM *packages.Package) {
 						switch fn.Name() {
 						case "NewFileNode":
 							newNode = v
-						case "NewDigestForContent":
+						case "NewDigestForContent", "NewBlobForContent":
 							newDigest = v
 						}
 					}
@@ -585,7 +590,7 @@ func c08NodeFromObject(c *Ctx, pkM *packages.Package) {
 				// (a) content digest of this object
 				okDigest := newDigest != nil && len(newDigest.Call.Args) >= 1 && stripConv(newDigest.Call.Args[0]) == ssa.Value(obj) &&
 					len(newNode.Call.Args) == 2 && dependsOnValue(newNode.Call.Args[1], newDigest)
-				c.Ob(rule, inst+"/content", newNode.Pos(), okDigest, true, "the node's digest is NewDigestForContent(<the walked object>): %v", okDigest)
+				c.Ob(rule, inst+"/content", newNode.Pos(), okDigest, true, "the node's digest is NewDigestForContent/NewBlobForContent(<the walked object>): %v", okDigest)
 				// (b) named by Path()
 				okPath := false
 				if pc, ok := stripConv(newNode.Call.Args[0]).(*ssa.Call); ok && pc.Call.IsInvoke() && pc.Call.Value == ssa.Value(obj) && pc.Call.Method.Name() == "Path" {
